@@ -13,6 +13,7 @@ import (
 	"github.com/smarthome-go/homescript/v3/homescript/analyzer/ast"
 	"github.com/smarthome-go/homescript/v3/homescript/compiler"
 	"github.com/smarthome-go/homescript/v3/homescript/diagnostic"
+	"github.com/smarthome-go/homescript/v3/homescript/optimizer"
 	herrors "github.com/smarthome-go/homescript/v3/homescript/errors"
 	treeValue "github.com/smarthome-go/homescript/v3/homescript/interpreter/value"
 	hmsrt "github.com/smarthome-go/homescript/v3/homescript/runtime"
@@ -340,6 +341,17 @@ func doRun(req *RunReq) (*RunRes, error) {
 		defer runtime.GOMAXPROCS(runtime.GOMAXPROCS(req.Procs))
 	}
 	baseG := runtime.NumGoroutine()
+	if req.Optimize {
+		opt := optimizer.NewOptimizer()
+		optimized, odiags := opt.Optimize(mods)
+		for _, d := range odiags {
+			if d.Level == diagnostic.DiagnosticLevelError {
+				res.Outcome = &Outcome{Kind: "optimizer-error", Msg: d.Message}
+				return res, nil
+			}
+		}
+		mods = optimized
+	}
 
 	switch req.Backend {
 	case "vm":
